@@ -43,6 +43,7 @@ theorem handle_reports (l : Lib) (env : Env) (r : Raw) (w : Watch)
   unfold Lib.handle
   rw [hw]
   simp only [hk, hm, Bool.false_eq_true, if_false]
+  rw [recurseAfter_events]
   unfold Lib.emit
   rw [if_neg (by simpa using hs)]
   simp only
